@@ -16,7 +16,9 @@ TREE = [[b"SECRET", 0, b"top-secret"], [b"p/SECRET2", 0, b"s2"], [b"p/q/root/a.t
         # inside entries whose names merely START with two dots: they are not climbs and must stay reachable
         [b"p/q/root/..hidden", 0, b"hh"], [b"p/q/root/..data/config", 0, b"cfg"], [b"p/q/root/.../deep", 0, b"d3"], [b"p/q/root/sub/..x", 0, b"sx"]]
 ROOTS = [b"@BASE@/p/q/root", b"@BASE@/p/q/root/", b"@BASE@/p/./q/root2/../root", b"@CWD@/p/q/root"]
-SEGS = [b"a.txt", b"sub", b"deep", b"b.txt", b".", b"..", b"", b"%2e%2e", b"%2e", b"root", b"root2", b"rootX", b"q", b"SECRET", b"x", b"nosuch", b"..%2f..", b"%2E%2E", b"..hidden", b"..data", b"...", b"config", b"..x"]
+SEGS = [b"a.txt", b"sub", b"deep", b"b.txt", b".", b"..", b"", b"%2e%2e", b"%2e", b"root", b"root2", b"rootX", b"q", b"SECRET", b"x", b"nosuch", b"..%2f..", b"%2E%2E", b"..hidden", b"..data", b"...", b"config", b"..x",
+        # backslashes are ordinary name characters here, never separators
+        b"..\\", b"..%5C", b"..%5C..", b"..%5CSECRET", b"%5C", b"sub\\..\\..", b"..%255C.."]
 ABS = [b"@BASE@/p/q/root/", b"@BASE@/p/q/", b"@BASE@/", b"@BASE@/p/q/root2/", b"@BASE@/p/q/rootX/", b"/hx-nonexistent/", b"@BASE@/p/q/root/../"]
 # absolute only after the handler's own decoding: the leading slash is percent-encoded
 ABS += [b"%2F" + a for a in ABS[:5]] + [b"%2f@BASE@/p/", b"%2F%2F@BASE@/", b"%2F@BASE@%2Fp%2F"]
